@@ -33,15 +33,17 @@ SAFE_BUILTINS = {
     "dedent": textwrap.dedent, "indent": textwrap.indent, "zip": zip, "next": next, "iter": iter, "sorted": sorted, "repr": repr, "bool": bool, "abs": abs, "reversed": reversed, "ord": ord, "chr": chr, "set": set, "frozenset": frozenset, "any": any, "all": all, "dict": dict, "map": map, "filter": filter, "bytes": bytes, "bytearray": bytearray, "divmod": divmod,
 }
 SAFE_METHODS = {
-    str: {"encode", "isdigit", "isalpha", "isalnum", "isnumeric", "isidentifier", "isspace", "join", "strip", "lstrip", "rstrip", "format", "startswith", "endswith", "split", "replace", "upper", "lower", "partition"},
+    str: {"encode", "isdigit", "isalpha", "isalnum", "isnumeric", "isidentifier", "isspace", "join", "strip", "lstrip", "rstrip", "format", "startswith", "endswith", "split", "replace", "upper", "lower", "partition",
+          "count", "find", "rfind", "index", "rindex", "splitlines", "rsplit", "rpartition", "removeprefix", "removesuffix", "zfill", "ljust", "rjust", "center", "title", "capitalize", "casefold",
+          "swapcase", "isupper", "islower", "isdecimal", "isascii", "isprintable", "expandtabs", "format_map"},
     int: {"bit_length", "to_bytes"},
     list: {"index", "count", "copy", "append", "extend", "insert", "pop", "clear", "remove", "reverse", "sort"},
     set: {"union", "intersection", "difference", "issubset", "issuperset", "copy", "add", "discard", "update", "remove", "clear"},
     frozenset: {"union", "intersection", "difference", "issubset", "issuperset"},
     tuple: {"index", "count"},
     dict: {"get", "keys", "values", "items", "setdefault", "update", "pop", "popitem", "copy", "clear"},
-    bytearray: {"append", "extend", "find", "rfind", "index", "count", "startswith", "endswith", "decode", "hex", "clear", "split", "partition", "strip", "rstrip", "lstrip"},
-    bytes: {"hex", "startswith", "endswith", "decode", "join", "find", "rfind", "index", "count", "split", "partition", "rpartition", "strip", "rstrip", "lstrip", "replace"},
+    bytearray: {"append", "extend", "find", "rfind", "index", "count", "startswith", "endswith", "decode", "hex", "clear", "split", "partition", "strip", "rstrip", "lstrip", "ljust", "rjust", "center", "zfill", "replace"},
+    bytes: {"hex", "startswith", "endswith", "decode", "join", "find", "rfind", "index", "count", "split", "partition", "rpartition", "strip", "rstrip", "lstrip", "replace", "ljust", "rjust", "center", "zfill", "upper", "lower", "isdigit", "isalpha", "removeprefix", "removesuffix"},
 }
 _SAFE_STATIC = {("int", "from_bytes"): (int, int.from_bytes), ("bytes", "fromhex"): (bytes, bytes.fromhex), ("str", "join"): (str, str.join)}
 _BIN = {
